@@ -93,7 +93,9 @@ theorem loop_items {c : Chain} (w : WF c) {stop : Header} {skip : Nat} :
             omega
           · exact ih _ _ hr x hx
 
-theorem loop_sorted {c : Chain} (w : WF c) {stop : Header} {skip : Nat} (hs : stop.height + skip < two64) :
+/-- the loop only ever moves to a strictly larger index (the `next <= index` test), so the
+    heights strictly increase — for EVERY skip value -/
+theorem loop_sorted {c : Chain} (w : WF c) {stop : Header} {skip : Nat} :
     ∀ (fuel index : Nat) (l : List Header), index < stop.height → loop c stop skip fuel index = some l →
       incr l ∧ ∀ h ∈ l, index < h.height := by
   intro fuel
@@ -101,8 +103,6 @@ theorem loop_sorted {c : Chain} (w : WF c) {stop : Header} {skip : Nat} (hs : st
   | zero => intro index l _ h; simp [loop] at h; simp [h, incr]
   | succ n ih =>
     intro index l hi h
-    have hadv : advance index skip = index + skip + 1 := by
-      unfold advance; apply Nat.mod_eq_of_lt; omega
     unfold loop at h
     simp only at h
     split at h
@@ -208,7 +208,7 @@ theorem fetch_prefix {hasBlock : Nat → Bool} {tmo : Nat} :
           simp [List.prefix_cons_iff, this]
 
 
-theorem loop_progression {c : Chain} (w : WF c) {stop : Header} {skip : Nat} (hs : stop.height + skip < two64) :
+theorem loop_progression {c : Chain} (w : WF c) {stop : Header} {skip : Nat} (hs : skip < two64) (hu : stop.height ≤ two64) :
     ∀ (fuel index : Nat) (l : List Header), index < stop.height → loop c stop skip fuel index = some l →
       (∀ k (hk : k < l.length), l[k] = stop ∨ l[k].height = index + (k + 1) * (skip + 1)) ∧
       (l.getLast? = some stop ∨ l.length = fuel) := by
@@ -217,14 +217,15 @@ theorem loop_progression {c : Chain} (w : WF c) {stop : Header} {skip : Nat} (hs
   | zero => intro index l _ h; simp [loop] at h; simp [h]
   | succ n ih =>
     intro index l hi h
-    have hadv : advance index skip = index + skip + 1 := by
-      unfold advance; apply Nat.mod_eq_of_lt; omega
     unfold loop at h
     simp only at h
     split at h
     · cases h
       exact ⟨fun k hk => Or.inl (by simp at hk; subst hk; rfl), Or.inl rfl⟩
     · rename_i hlt
+      -- the step was taken: `next > index`, so `index + skip + 1` did not wrap
+      have hadv : advance index skip = index + skip + 1 := by
+        unfold advance two64 at *; omega
       split at h
       · cases h
       · rename_i hd hb
